@@ -119,6 +119,29 @@ type GenCfg struct {
 type G struct {
 	t *rapid.T
 	GenCfg
+	budget int // nodes left; at 0 only leaves are produced
+}
+
+// Program generates a whole program of static type ty within the engine's capacity
+// limits: at most a few hundred nodes, and no and/or that would exceed 127 operands
+// once ReduceNesting has merged nested operators (such programs are legitimately
+// rejected by Compile; C09 is the property about them). The second condition is
+// met by regenerating with a smaller depth, which is rare (counted by callers if needed).
+func (g *G) Program(ty m.Ty) *m.Node {
+	for try := 0; ; try++ {
+		g.budget = 300
+		if Thorough() {
+			g.budget = 700
+		}
+		tree := g.Expr(ty, g.Depth)
+		if maxOperands(flattenModel(tree)) <= 127 && maxOperands(tree) <= 127 {
+			return tree
+		}
+		if try >= 4 {
+			return g.Leaf(ty)
+		}
+		g.Depth = g.Depth/2 + 1
+	}
 }
 
 func (g *G) alias(names ...string) string {
@@ -229,7 +252,8 @@ func (g *G) Fail(ty m.Ty, d int) *m.Node {
 
 // Expr generates an expression of static type ty and depth at most d.
 func (g *G) Expr(ty m.Ty, d int) *m.Node {
-	if d <= 0 {
+	g.budget--
+	if d <= 0 || g.budget <= 0 {
 		return g.Leaf(ty)
 	}
 	cw, fw := 0, 0
@@ -443,4 +467,41 @@ func drawStateless(t *rapid.T) []string {
 
 func rootTy(t *rapid.T) m.Ty {
 	return []m.Ty{m.TBool, m.TInt, m.TStr, m.TIntList, m.TStrList}[pickW(t, "rootty", 12, 4, 1, 1, 1)]
+}
+
+// flattenModel: ReduceNesting as documented - an and/or directly inside the same
+// operator is merged into it (bottom-up), as long as every operand of the outer
+// operator is a leaf or such an operator.
+func flattenModel(n *m.Node) *m.Node {
+	c := &m.Node{Kind: n.Kind, Name: n.Name, Val: n.Val}
+	for _, k := range n.Kids {
+		c.Kids = append(c.Kids, flattenModel(k))
+	}
+	and, or := m.IsAnd(c.Name), m.IsOr(c.Name)
+	if c.Kind != m.KOp || !(and || or) {
+		return c
+	}
+	var kids []*m.Node
+	for _, k := range c.Kids {
+		switch {
+		case k.IsLeaf():
+			kids = append(kids, k)
+		case k.Kind == m.KOp && ((and && m.IsAnd(k.Name)) || (or && m.IsOr(k.Name))):
+			kids = append(kids, k.Kids...)
+		default:
+			return c
+		}
+	}
+	c.Kids = kids
+	return c
+}
+
+func maxOperands(n *m.Node) int {
+	mx := len(n.Kids)
+	for _, k := range n.Kids {
+		if x := maxOperands(k); x > mx {
+			mx = x
+		}
+	}
+	return mx
 }
